@@ -347,6 +347,18 @@ fn codec_prefixes() -> Vec<(String, Vec<u8>, Option<bool>)> {
     for c in [0x00u64, 0x01, 0x51, 0x55, 0x70, 0x71, 0x0129, 0x0200, 0x0202, 0x0101, 0x0281, 0x01, 0x81, 0x4201, 0x10201, 0xffffffff] {
         v.push((format!("codec-{c:#x}"), varint(c), Some(true)));
     }
+    // longer varints that merely begin like the MessagePack tag, and every single-bit flip of the two tag bytes
+    for c in [0x200201u64, 0x800201, 0x10000201, 0x4000201] {
+        v.push((format!("codec-{c:#x}"), varint(c), Some(true)));
+    }
+    let good = varint(0x0201);
+    for byte in 0..good.len() {
+        for bit in 0..8 {
+            let mut p = good.clone();
+            p[byte] ^= 1 << bit;
+            v.push((format!("tag-byte-{byte}-bit-{bit}-flipped"), p, Some(true)));
+        }
+    }
     // the same number written non-minimally, or beyond u32: not another codec by the statement's wording - observed only
     v.push(("non-minimal-0x0201".into(), vec![0x81, 0x84, 0x80, 0x00], None));
     v.push(("overlong-varint".into(), vec![0x81, 0x84, 0x80, 0x80, 0x80, 0x80, 0x00], None));
